@@ -65,11 +65,35 @@ Lemma C04_shuffle_alignment_refuted_old :
                 reap_flag old_wiring false true self0 saved <> used.
 Proof. exists 1. cbn. discriminate. Qed.
 
+(* the description (combos, cases) the reaper rebuilds the grid from -- the SAVED one -- is, as a term over
+   the caller's arguments, the one the sowing runner enumerated and the one the batch planner counted, for
+   sow_combos (sorted by argument name at all three sites) and sow_cases (as given at all three) *)
+Theorem C04_one_description : forall (x : list (Z * list Z)),
+  (dterm_eval (ds_saved_combos gen_sow_combos_sites) x = dterm_eval (ds_run_combos gen_sow_combos_sites) x
+   /\ dterm_eval (ds_saved_cases gen_sow_combos_sites) x = dterm_eval (ds_run_cases gen_sow_combos_sites) x)
+  /\ (dterm_eval (ds_saved_combos gen_sow_cases_sites) x = dterm_eval (ds_run_combos gen_sow_cases_sites) x
+      /\ dterm_eval (ds_saved_cases gen_sow_cases_sites) x = dterm_eval (ds_run_cases gen_sow_cases_sites) x).
+Proof.
+  intros x.
+  destruct (consistent_one_description gen_sow_combos_sites eq_refl) as (-> & -> & _).
+  destruct (consistent_one_description gen_sow_cases_sites eq_refl) as (-> & -> & _).
+  repeat split.
+Qed.
+
+(* sensitivity: were the saved combos sorted by name while sow_cases enumerates them as given, the two
+   descriptions differ as soon as two sub-combos are not in alphabetical order *)
+Lemma C04_saved_sorted_refuted :
+  let s := mk_descr_sites (DParse DArg) (DParse DArg) (DSortByName (DParse DArg)) (DParse DArg) (DParse DArg) (DParse DArg) in
+  let x := [(5, [1; 2]); (2, [7; 8; 9])] in
+  descr_consistent s = false /\ dterm_eval (ds_saved_combos s) x <> dterm_eval (ds_run_combos s) x.
+Proof. split; [reflexivity|vm_compute; discriminate]. Qed.
+
 Theorem C04_code_tie :
   gen_wiring = model_wiring
+  /\ gen_sow_combos_sites = model_sow_combos_sites /\ gen_sow_cases_sites = model_sow_cases_sites
   /\ (forall cne pc sne lc bs nb r, gen_choose cne pc sne lc bs nb r = choose (total_n cne pc sne lc) bs nb r)
   /\ (forall cnt bc s r, gen_sower_call cnt bc s r = (cnt + 1, true, cut s r (cnt + 1) bc)).
-Proof. exact (conj bridge_wiring (conj bridge_choose bridge_sower_call)). Qed.
+Proof. exact (conj bridge_wiring (conj bridge_sow_combos_sites (conj bridge_sow_cases_sites (conj bridge_choose bridge_sower_call)))). Qed.
 
 (* non-vacuity: a shuffled 2 x 3 grid in 4 batches, grown in a scrambled order with repeats *)
 From XV Require Import RunnerInst CropInst.
@@ -90,4 +114,5 @@ Print Assumptions C04_shuffle_irrelevant.
 Print Assumptions C04_grow_history.
 Print Assumptions C04_fresh_process.
 Print Assumptions C04_shuffle_alignment.
+Print Assumptions C04_one_description.
 Print Assumptions C04_code_tie.
